@@ -7,10 +7,16 @@ correspondence: the same definitions at binary64 (Corr_C08.chk08, teacher-forced
 oracle     : the Beck–Teboulle bound F(x̂_k) - F* <= 2‖x0-x*‖²/(γ_k (k+1)²) (and monotonicity + O(1/k) with acceleration
              disabled, t_k >= (k+2)/2, step-size monotonicity, feasibility, and per-iteration mechanism checks) evaluated
              on what the implementation returned; problems are CONSTRUCTED from a chosen minimiser x* (KKT by
-             construction, exact dyadic data), so F* and x* are known in closed form, independent of any solver."""
+             construction, exact dyadic data), so F* and x* are known in closed form, independent of any solver;
+whole runs : Properties_C08.v (9)-(15) state the rate on FistaLoop.fista, the model of the WHOLE operator(); FISTA.attach re-checks
+             Properties_FISTA.v and runs the whole-run correspondence FistaLoop.v <-> FISTASolver (drv_solve), and the rate oracle
+             is evaluated on every one of those whole runs that satisfies the theorem's hypotheses (convex QP incl. m > 0: ψ = the
+             augmented Lagrangian for the run's y, Σ), against F*, x* from an independent pure-Python reference minimisation;
+             a second stream of whole runs is aimed at those hypotheses (long runs, every Lipschitz mode, l1, m <= 3, all criteria)."""
 import importlib.util, math
 from fractions import Fraction as Fr
 from vf.core import *
+from vf import solvelib as sl
 
 INF = float("inf")
 EPS = 2.0 ** -52
@@ -356,6 +362,248 @@ def brief(c):
     d = {k: v for k, v in c.items() if k not in ("Q", "A", "c", "lb", "ub", "l1", "xs", "x0")}
     return d
 
+
+# --------------------------------------------------------------------------- whole runs (FistaLoop.v <-> drv_solve): rate oracle
+
+def _chol_pd(M):
+    """True iff the symmetric matrix M is positive definite (plain Cholesky, n <= 6)"""
+    n = len(M)
+    Lc = [[0.0] * n for _ in range(n)]
+    for i in range(n):
+        for j in range(i + 1):
+            s = M[i][j] - sum(Lc[i][k] * Lc[j][k] for k in range(j))
+            if i == j:
+                if not (s > 1e-12): return False
+                Lc[i][i] = math.sqrt(s)
+            else:
+                Lc[i][j] = s / Lc[j][j]
+    return True
+
+def _sig(S, i):
+    return S[0] if len(S) == 1 else S[i]
+
+def wr_lipschitz(p, S0):
+    """upper bound of the Lipschitz constant of ∇ψ:  ‖Q + AᵀΣA‖ (min of the ∞- and the Frobenius norm)"""
+    n = p.n
+    H = [[p.Q[i][j] + sum(_sig(S0, k) * p.A[k][i] * p.A[k][j] for k in range(p.m)) for j in range(n)] for i in range(n)]
+    return min(max(sum(abs(a) for a in row) for row in H), math.sqrt(sum(a * a for row in H for a in row)))
+
+def wr_lam(p, i):
+    return 0.0 if not p.l1 else (p.l1[0] if len(p.l1) == 1 else p.l1[i])
+
+def wr_F(p, x, y0, S0):
+    return p.psi(x, y0, S0) + p.h(x)
+
+def wr_preconditions(cs):
+    """None when the run satisfies the hypotheses of C08_fistaloop_rate, else the reason it is outside the theorem"""
+    p = cs.prob
+    if cs.nan_from >= 0: return "nan-injection"
+    if any(p.w) or any(p.d): return "nonconvex"
+    n = p.n
+    if not _chol_pd([[p.Q[i][j] - (0.125 if i == j else 0.0) for j in range(n)] for i in range(n)]): return "not-strongly-convex"
+    if any(a > b for a, b in zip(p.Clb, p.Cub)): return "empty-box"
+    if p.l1 and (any(a < 0 for a in p.l1) or len(p.l1) not in (1, n) or any(a > 0 for a in p.Clb) or any(b < 0 for b in p.Cub)): return "l1-box-without-0"
+    P = cs.P_
+    Lf = wr_lipschitz(p, cs.S0)
+    if not (0 < P("Lgamma") <= 1): return "Lgamma"
+    if not (0 < P("L_min") <= P("L_max")): return "Lmin-Lmax"
+    if not (P("Lgamma") * Lf <= P("L_max")): return "Lmax-below-Lgamma*Lf"
+    if P("qub_tol") > 1e-12: return "qub-tolerance"
+    if not all(math.isfinite(t) and abs(t) < 1e6 for t in cs.x0): return "huge-x0"
+    return None
+
+def wr_reference(cs):
+    """independent minimiser of F = ψ + λ‖·‖₁ over C: restarted accelerated proximal gradient with step 1/‖H‖ in Python floats, accepted only
+    when the fixed-point residual certifies it (F strongly convex with modulus >= 1/8: F(z) − F* <= 4‖(z − T(z))/γ‖²)"""
+    p = cs.prob; n = p.n; y0, S0 = cs.y0, cs.S0
+    Lb = wr_lipschitz(p, S0)
+    g = 1.0 / Lb
+    lam = [wr_lam(p, i) for i in range(n)]
+    def T(x):
+        gr = p.grad_psi(x, y0, S0)
+        out = []
+        for i in range(n):
+            v = x[i] - g * gr[i]; a = g * lam[i]
+            s = v - a if v > a else (v + a if v < -a else 0.0)
+            out.append(min(max(s, p.Clb[i]), p.Cub[i]))
+        return out
+    x = [min(max(0.0, p.Clb[i]), p.Cub[i]) for i in range(n)]
+    y = list(x); t = 1.0
+    for it in range(40000):
+        xn = T(y)
+        if sum((y[i] - xn[i]) * (xn[i] - x[i]) for i in range(n)) > 0:
+            t = 1.0
+        tn = (1 + math.sqrt(1 + 4 * t * t)) / 2
+        y = [xn[i] + ((t - 1) / tn) * (xn[i] - x[i]) for i in range(n)]
+        x = xn; t = tn
+        if it % 8 == 7:
+            tx = T(x)
+            res = max(abs(a - b) for a, b in zip(x, tx))
+            if res <= 1e-15 * (1 + max(abs(a) for a in x)):
+                return tx
+    return None
+
+def wr_oracle(cs, o, stats):
+    """C08's predicate on one whole run of the real FISTASolver (records of drv_solve): Beck–Teboulle bound / O(1/k) + monotonicity
+    at EVERY progress-callback record, F(x̂_k) recomputed from the problem definition (ψ from f, g, D, y, Σ — not the reported ψx̂)"""
+    recs = o.get("records") or []
+    if not recs:
+        stats["no-records"] = stats.get("no-records", 0) + 1; return []
+    why = wr_preconditions(cs)
+    if why:
+        stats["outside:" + why] = stats.get("outside:" + why, 0) + 1; return []
+    xs = wr_reference(cs)
+    if xs is None:
+        stats["no-reference"] = stats.get("no-reference", 0) + 1; return []
+    p = cs.prob; V, D = sl.V, sl.D
+    Fs = wr_F(p, xs, cs.y0, cs.S0)
+    R2 = sum((a - b) ** 2 for a, b in zip(cs.x0, xs))
+    noacc = bool(cs.P_("noaccel"))
+    mode = ("noaccel" if noacc else "accel") + "/" + ("fixed" if cs.fixed() else "backtracked") + ("/m>0" if p.m else "/m=0")
+    Fk = []
+    for r in recs:
+        xh = V(r, "xh")
+        Fk.append(wr_F(p, xh, cs.y0, cs.S0) if all(math.isfinite(t) for t in xh) else float("nan"))
+    fin = [a for a in Fk if math.isfinite(a)]
+    if not fin:
+        stats["non-finite"] = stats.get("non-finite", 0) + 1; return []
+    atol = 1e-10 * (1 + abs(Fs) + max(abs(a) for a in fin))
+    stats["runs"] = stats.get("runs", 0) + 1
+    stats["records"] = stats.get("records", 0) + len(recs)
+    stats["runs:" + mode] = stats.get("runs:" + mode, 0) + 1
+    stats["max_k"] = max(stats.get("max_k", 0), recs[-1]["k"])
+    bad = []
+    ts = [D(r, "t") for r in recs]
+    tc = t_class(ts)
+    worst = None
+    for i, r in enumerate(recs):
+        k = r["k"]; g = D(r, "gamma")
+        if not (math.isfinite(Fk[i]) and math.isfinite(g) and g > 0):
+            bad.append(("C08:whole-run:not-finite", "whole run: non-finite F(x̂_k) or γ_k at k=%d although the problem is a convex QP" % k)); break
+        v = Fk[i] - Fs
+        if v < -atol - 1e-9 * abs(Fs):
+            stats["reference-not-minimal"] = stats.get("reference-not-minimal", 0) + 1; return []     # reference failed, not the solver
+        if not noacc:
+            b = 2 * R2 / (g * (k + 1) ** 2)
+            if v > b * (1 + 1e-9) + atol:
+                ratio = v / b if b > 0 else INF
+                if worst is None or ratio > worst[0]: worst = (ratio, k, v, b, g, ts[i])
+            if math.isfinite(ts[i]) and ts[i] < (k + 2) / 2 * (1 - 1e-12):
+                bad.append(("C08:momentum-recurrence-missing-square" if tc == "missing-square" else "C08:whole-run:momentum-below-lower-bound",
+                            "whole run: t_k = %.17g < (k+2)/2 at k=%d (momentum sequence follows: %s)" % (ts[i], k, tc))); break
+        else:
+            b = R2 / (2 * g * (k + 1))
+            if v > b * (1 + 1e-9) + atol:
+                bad.append(("C08:whole-run:noaccel-rate-violated:" + mode, "whole run, acceleration disabled: F(x̂_k)-F* = %.6g > ‖x0-x*‖²/(2γ_k(k+1)) = %.6g at k=%d" % (v, b, k))); break
+            if i > 0 and Fk[i] > Fk[i - 1] + atol:
+                bad.append(("C08:whole-run:noaccel-not-monotone:" + mode, "whole run, acceleration disabled: F(x̂_k)=%.17g > F(x̂_{k-1})=%.17g at k=%d" % (Fk[i], Fk[i - 1], k))); break
+    if worst is not None:
+        ratio, k, v, b, g, t = worst
+        sig = "C08:momentum-recurrence-missing-square" if tc == "missing-square" else "C08:whole-run:rate-bound-violated:" + mode + (":momentum-" + tc if tc != "beck" else "")
+        bad.append((sig, "whole run of FISTASolver (drv_solve): F(x̂_k)-F* = %.6g > 2‖x0-x*‖²/(γ_k(k+1)²) = %.6g at k=%d (ratio %.3f, γ_k=%.6g, t_k=%.6g, momentum sequence follows: %s; F*=%.17g from the independent reference minimiser)"
+                    % (v, b, k, ratio, g, t, tc, Fs)))
+    return bad
+
+def gen_rate_runs(ctx, N):
+    """whole runs aimed at the hypotheses of C08_fistaloop_rate: strongly convex QPs with linear constraints (m <= 3), optional l1 on boxes
+    containing 0, Lipschitz settings with Lγ·Lf <= L_max (fixed step at / above Lf, backtracking from too small / adequate L_0, finite
+    differences, L_max cap at >= Lf), quadratic-upper-bound tolerance 0, tolerance 0 so that the run lasts max_iter iterations, every criterion"""
+    from vf.props import FISTA
+    rng = ctx.rng
+    out = []
+    for i in range(N):
+        n = rng.choice([1, 2, 3, 4]); m = rng.choice([0, 0, 1, 2, 3])
+        prob, _ = sl.gen_problem(rng, "qp", n=n, m=m)
+        r = rng.random()
+        if r < 0.45:
+            for j in range(n):      # l1 needs 0 in the box
+                if prob.Clb[j] > 0: prob.Clb[j] = -prob.Clb[j]
+                if prob.Cub[j] < 0: prob.Cub[j] = -prob.Cub[j]
+            prob.l1 = [rng.choice([0.25, 1.0, 2.0])] if r < 0.2 else [rng.choice([0.0, 0.5, 2.0]) for _ in range(n)]
+        y0 = rng.vec(m, 1.0); S0 = [rng.choice([0.5, 1.0, 4.0, 10.0]) for _ in range(m)]
+        Lf = wr_lipschitz(prob, S0)
+        P = {"max_iter": rng.choice([10, 25, 40, 60]), "crit": rng.choice(sl.CRITS), "qub_tol": 0.0, "max_no_progress": 1000}
+        mode = rng.choice(["fixed", "fixed", "L0-small", "L0-small", "L0-ok", "fd", "cap"])
+        p2 = 2.0 ** math.ceil(math.log2(Lf))
+        if mode == "fixed": L = p2 * rng.choice([1.0, 1.0, 2.0]); P["L_min"] = L; P["L_max"] = L
+        elif mode == "L0-small": P["L_0"] = p2 / rng.choice([4.0, 64.0, 1024.0])
+        elif mode == "L0-ok": P["L_0"] = p2 * rng.choice([1.0, 4.0])
+        elif mode == "cap": P["L_0"] = p2 / 32.0; P["L_max"] = p2 * rng.choice([1.0, 2.0])
+        P["Lgamma"] = rng.choice([1.0, 1.0, 0.95, 0.5])
+        if rng.random() < 0.2: P["noaccel"] = True
+        kw = {}
+        if rng.random() < 0.1: kw["stop_cb"] = rng.randint(3, 20)
+        out.append(FISTA.Case(prob, rng.vec(n, 2.0), y0, S0, P, rng.random() < 0.5, 0.0 if rng.random() < 0.8 else 1e-6, tag="rate-" + mode, **kw))
+    return out
+
+def run_rate_stream(ctx, N, stats):
+    """the targeted whole runs: real solver (drv_solve) -> rate oracle + FISTA's own invariants oracle; FistaLoop.fista at binary64 must
+    reproduce every one of them (Corr_FISTA.chkfista), so the runs the oracle looks at ARE runs of the model the theorem is about"""
+    from vf.props import FISTA
+    if not build_driver(ctx, "solve"): return
+    cases = gen_rate_runs(ctx, N)
+    outs = run_driver(ctx, "solve", "".join(c.rq.to_input() for c in cases), timeout=1500)
+    if outs is None or len(outs) != len(cases):
+        ctx.broke("correspondence", "drv_solve (rate stream)", "driver produced %s results for %d runs" % (None if outs is None else len(outs), len(cases)))
+        return
+    terms, owners = [], []
+    for cs, o in zip(cases, outs):
+        ctx.count(cs.tag)
+        if "exc" in o:
+            ctx.violation("C08:whole-run:exception", "driver exception %s" % o["exc"], {"driver": "drv_solve", "input": cs.rq.to_input(), "request": cs.rq.describe(), "why": o["exc"]})
+            continue
+        for sig, msg in wr_oracle(cs, o, stats):
+            ctx.violation(sig, msg, wr_replay(cs, o, msg))
+        for sig, msg in FISTA.oracle(cs, o):
+            ctx.violation(sig.replace("FISTA:", "C08:fista-model:"), msg, wr_replay(cs, o, msg))
+        recs = o["records"]
+        ctx.case("whole-run/%s/%s/%d/%s%s%s" % (cs.tag, o["status"], min(len(recs), 6) if len(recs) < 6 else 10 * (len(recs) // 10), "m" if cs.prob.m else "", "l" if cs.prob.l1 else "", "a" if cs.P_("noaccel") else ""),
+                 sample=({"request": cs.rq.describe(), "status": o["status"], "iterations": o["iterations"], "records": len(recs)} if len(terms) % 37 == 0 else None))
+        terms.append(FISTA.coq_case(cs, o)); owners.append((cs, o))
+    failing = coq_failing_cases(ctx, "raterun", "Prox SolverStatus SolverKernels AugLag FistaLoop Corr_FISTA", "fcase", "chkfista", terms, shard=ctx.n(8, 30), dump="modelfista")
+    ctx.coverage["rate_stream_whole_run_cases"] = len(terms)
+    if failing is None:
+        return
+    real = [i for i in failing if not FISTA.near_tie(*owners[i])]
+    ctx.coverage["rate_stream_disagreements"] = len(real)
+    ctx.coverage["discarded_near_ties"] = ctx.coverage.get("discarded_near_ties", 0) + len(failing) - len(real)
+    if real:
+        cs, o = owners[real[0]]
+        ctx.broke("correspondence", "FistaLoop.v (whole run, rate stream) vs FISTASolver in drv_solve",
+                  json.dumps({"n_disagreements": len(real), "first_disagreeing_request": cs.rq.describe(), "driver_input": cs.rq.to_input(),
+                              "impl": {k: v for k, v in o.items() if k != "records"}, "impl_records": len(o["records"]),
+                              "model_dump": getattr(ctx, "last_dump", "")[-1500:]}))
+
+def wr_case_dict(cs):
+    p = cs.prob
+    return {"prob": {k: getattr(p, k) for k in ("n", "m", "Q", "c", "w", "A", "d", "Clb", "Cub", "Dlb", "Dub", "l1", "split", "hess", "prov")},
+            "x0": cs.x0, "y0": cs.y0, "S0": cs.S0, "P": cs.P, "always": cs.always, "tol": cs.tol, "stop_eval": cs.stop_eval, "stop_cb": cs.stop_cb,
+            "nan_from": cs.nan_from, "time0": cs.time0, "tag": cs.tag}
+
+def wr_case_from(d):
+    from vf.props import FISTA
+    q = d["prob"]
+    prob = sl.Problem(q["n"], q["m"], q["Q"], q["c"], q["w"], q["A"], q["d"], q["Clb"], q["Cub"], q["Dlb"], q["Dub"], q["l1"], q["split"], q["hess"])
+    prob.prov = q.get("prov", 0)
+    return FISTA.Case(prob, d["x0"], d["y0"], d["S0"], d["P"], d["always"], d["tol"], stop_eval=d["stop_eval"], stop_cb=d["stop_cb"],
+                      nan_from=d["nan_from"], time0=d["time0"], tag=d.get("tag", "replay"))
+
+def wr_replay(cs, o, msg):
+    return {"driver": "drv_solve", "input": cs.rq.to_input(), "request": cs.rq.describe(), "whole_run_case": wr_case_dict(cs),
+            "impl_output": {k: v for k, v in o.items() if k != "records"}, "why": msg,
+            "how": "build/drv_solve < input ; F(x̂_k) = ψ(x̂_k; y, Σ) + Σλ|x̂_k| from the records' xh, compare with 2‖x0-x*‖²/(γ_k (k+1)²)"}
+
+def whole_runs(ctx):
+    """(9)-(15) of Properties_C08.v are about FistaLoop.fista: re-check Properties_FISTA.v, run the whole-run correspondence that ties FistaLoop.v to
+    the code, and evaluate the rate oracle on every whole run inside the theorem's hypotheses"""
+    from vf.props import FISTA
+    stats = {}
+    FISTA.attach(ctx, scale=0.3, extra_oracle=lambda cs, o: wr_oracle(cs, o, stats))
+    run_rate_stream(ctx, ctx.n(90, 700), stats)
+    ctx.coverage["whole_run_rate_oracle"] = dict(sorted(stats.items()))
+    if not stats.get("runs"):
+        ctx.log("whole-run rate oracle: no run satisfied the hypotheses (stats: %s)" % stats)
+
 # --------------------------------------------------------------------------- entry
 
 def run(ctx):
@@ -367,7 +615,8 @@ def run(ctx):
         "theorems are over the reals (no rounding) with quadratic_upperbound_tolerance_factor = 0; the oracle evaluates the bound on the doubles with slack 1e-9 rel + 1e-10 abs",
         "f enters the theorems through Section hypotheses: first-order convexity inequality and the descent lemma with constant Lf; Lγ_factor <= 1 and Lγ_factor·Lf <= L_max",
         "with an l1 term the box must contain 0 (lb <= 0 <= ub), as BoxConstrProblem documents",
-        "stop criteria / status chain / no-progress counter / timing of fista.tpp are not modelled here (C06); m = 0 (ψ = f)",
+        "theorems (1)-(8) are on the loop skeleton Fista.v (m = 0, no stop criteria); (9)-(15) are on FistaLoop.fista, the whole operator() incl. stop chain, "
+        "all Lipschitz modes and m > 0, under coherent problem oracles (ψ, ∇ψ functions of x only; ŷ, eval_grad_L arbitrary)",
         "the loop skeleton (order of prox step, ψ(x̂), backtracking, t update, extrapolation, re-evaluation) is a hand model validated per iteration against the real solver; "
         "the scalar kernels are translated from fista.tpp on every run",
         "logistic costs and n > 40: oracle only (no Coq run)"]
@@ -380,6 +629,21 @@ def run(ctx):
     if ctx.replay_path:
         rp = json.load(open(ctx.replay_path))
         inp = rp.get("replay", {}).get("input")
+        if rp.get("replay", {}).get("driver") == "drv_solve":
+            # a whole run of the real solver through drv_solve (rate stream): same run, same oracles
+            from vf.props import FISTA
+            d = rp["replay"].get("whole_run_case")
+            if d and build_driver(ctx, "solve"):
+                cs = wr_case_from(d)
+                outs = run_driver(ctx, "solve", cs.rq.to_input(), timeout=900)
+                if outs:
+                    st = {}
+                    for sig, msg in wr_oracle(cs, outs[0], st) + [(a.replace("FISTA:", "C08:fista-model:"), b) for a, b in FISTA.oracle(cs, outs[0])]:
+                        ctx.violation(sig, msg, wr_replay(cs, outs[0], msg))
+                    ctx.case("replay")
+            else:
+                ctx.log("replay of a run recorded by the attached FISTA correspondence: build/drv_solve < replay.input")
+            return
         if inp:
             outs = run_driver(ctx, "C08", inp + "\n", timeout=900)
             c = rp["replay"].get("case")
@@ -429,3 +693,4 @@ def run(ctx):
                   json.dumps({"input": to_input(cases[k])[:3000], "case": brief(cases[k]), "model": getattr(ctx, "last_dump", "")}))
     elif failing is not None:
         ctx.coverage["correspondence_disagreements"] = 0
+    whole_runs(ctx)
